@@ -64,6 +64,8 @@ CURATED_DAGS = {
 }
 
 CURATED_DIGRAPHS = {
+    "single_edge_st": [("s", "t")],
+    "path_st": [("s", "a"), ("a", "t")],
     "self_loop": [("s", "a"), ("a", "a"), ("a", "t")],
     "two_cycle": [("s", "a"), ("a", "b"), ("b", "a"), ("b", "t")],
     "two_cycle_exit_a": [("s", "a"), ("a", "b"), ("b", "a"), ("a", "t")],
